@@ -10,7 +10,7 @@ import tr_kcguard
 
 
 def translate(repo):
-    return tr_kcguard.translate(repo)
+    return cc.translate_all(repo)
 
 
 PID = "C02"
